@@ -5,8 +5,8 @@ from .. import env, coq, runner, tables
 
 LEVEL = 'proof'
 META = dict(
-    text='Coq theorems (closed under the global context) over a hand-written Gallina model of measurement keys (path, name), key maps, scoped lookup of control keys, classical conditions and CircuitOperation with all its fields, written in the shape of the code (_mapped_any_loop: qubit map -> inverse for negative repetitions -> key map -> parameters; _mapped_single_loop: rescoping with the repetition id, then with parent path and extern keys; mapped_circuit with repetition ids vs plain repetition and deep recursion through Circuit.zip; the with_qubit_mapping / with_measurement_key_mapping / with_params / repeat(-1) / _with_rescoped_keys_ compositions pushed onto nested operations). Proved for every nesting depth, repetition count (positive or negative, non-zero), repetition ids, qubit/key/parameter maps and parent paths: the measurement keys and the qubits a nested operation reports equal those of its completely unrolled circuit; the unrolled circuit consists, moment by moment, of exactly the leaves a compositional semantics prescribes (which operation, inverted or not, on which qubits); key prefixing and key maps compose, control keys bind to the innermost enclosing bound measurement and never to a key bound later; remapping a condition changes only its key iff both replace_key implementations keep the other fields (two booleans read off the working tree on every run: both true since the F2 fix, so the faithful-remapping theorem is live on the tree and stops compiling if replace_key drops fields again); constructor compositions; repeat_until = least number of passes (under fuel). The zero-repetition case is refuted by a proved witness (F7). On every run the model is evaluated with vm_compute on generated nestings (depth 0-3) and compared exactly with the implementation: mapped_circuit shallow/deep moment by moment, measurement/control key sets, parameter names, qubits, is_measurement, touched key names and the fields after one further remapping of each kind; spec-level oracles on the real code compare the wrapped operation with its unrolled circuit by unitary (incl. the single-qubit fast path), deterministic simulation records, exact outcome distribution (scripted seed object enumerating every measurement branch), repeat_until loop counts, scoping templates with independently known outcomes, decompose / unroll_circuit_op* and remapping-commutes-with-unrolling. repeat_until loops at any nesting level (condition over a key of the loop body and a key measured in an enclosing sub-circuit that rescopes keys: repetition ids, parent paths, further enclosing levels, same-named top-level keys) are judged against a loop-free flat reference: each loop becomes k plain repetitions of its body followed by a classical control with the loop condition on a fresh ancilla, whose records certify that k is the do-while count; the loops\' control keys (per instance of the partial unrolling and of the whole circuit) and the simulation records of the wrapped and partially unrolled circuit must equal the reference (fixed grid for every seed + generated nests); two theorems back this oracle: one pass of a loop over body ++ [probe] is the pass over the body followed by the probe carrying exactly the mapped repeat_until condition (C12_until_scoped_as_last_control), and a further key map renames every key name the loop condition reads (C12_until_names_under_key_map; composing over the names of the body only, as the implementation does, is refuted: F20).',
-    note='Trusted: Coq kernel; vf/checks/c12.py (building Cirq objects from case records, decoding Cirq objects back, printing Gallina literals, the Python oracles); vf/tables_c12.py. Leaves other than CircuitOperation are abstract (identifier, inversion flag, qubits, keys, conditions, one parameter) and are instantiated by six gate families, measurements and classically controlled gates; key equality is componentwise (path, name), equal to Cirq\'s string equality when no path component contains ":"; sympy conditions are restricted to five expression templates and modelled by simultaneous substitution (as the implementation does since the F13 fix); key-map / qubit-map collision checks of the with_* methods are not modelled (generated maps are injective); control keys and conditions of the unrolled circuit, parameter names and repeat_until are compared with the model but have no unrolling theorem; tagged or classically controlled CircuitOperations are covered by the simulation oracle only. the flat reference of nested repeat_until loops exists only when every instance of a loop needs the same number (<= 4) of passes (other cases are skipped and counted), and it trusts the scoping of a classical control placed at the end of the loop body (covered by the key theorems and the struct correspondence). known_findings/C12.json lists eight open signatures (F7, F14, F15, F16 x3, F18, F20) and five fixed ones (F2 x2, F4, F13, F13b).',
+    text='Coq theorems (closed under the global context) over a hand-written Gallina model of measurement keys (path, name), key maps, scoped lookup of control keys, classical conditions and CircuitOperation with all its fields, written in the shape of the code (_mapped_any_loop: qubit map -> inverse for negative repetitions -> key map -> parameters; _mapped_single_loop: rescoping with the repetition id, then with parent path and extern keys; mapped_circuit with repetition ids vs plain repetition and deep recursion through Circuit.zip; the with_qubit_mapping / with_measurement_key_mapping / with_params / repeat(-1) / _with_rescoped_keys_ compositions pushed onto nested operations). Proved for every nesting depth, repetition count (positive or negative, non-zero), repetition ids, qubit/key/parameter maps and parent paths: the measurement keys and the qubits a nested operation reports equal those of its completely unrolled circuit; the unrolled circuit consists, moment by moment, of exactly the leaves a compositional semantics prescribes (which operation, inverted or not, on which qubits); key prefixing and key maps compose, control keys bind to the innermost enclosing bound measurement and never to a key bound later; remapping a condition changes only its key iff both replace_key implementations keep the other fields (two booleans read off the working tree on every run: both true since the F2 fix, so the faithful-remapping theorem is live on the tree and stops compiling if replace_key drops fields again); constructor compositions; repeat_until = least number of passes (under fuel). The zero-repetition case is refuted by a proved witness (F7). On every run the model is evaluated with vm_compute on generated nestings (depth 0-3) and compared exactly with the implementation: mapped_circuit shallow/deep moment by moment, measurement/control key sets, parameter names, qubits, is_measurement, touched key names and the fields after one further remapping of each kind; spec-level oracles on the real code compare the wrapped operation with its unrolled circuit by unitary (incl. the single-qubit fast path), deterministic simulation records, exact outcome distribution (scripted seed object enumerating every measurement branch), repeat_until loop counts, scoping templates with independently known outcomes, decompose / unroll_circuit_op* and remapping-commutes-with-unrolling. repeat_until loops at any nesting level (condition over a key of the loop body and a key measured in an enclosing sub-circuit that rescopes keys: repetition ids, parent paths, further enclosing levels, same-named top-level keys) are judged against a loop-free flat reference: each loop becomes k plain repetitions of its body followed by a classical control with the loop condition on a fresh ancilla, whose records certify that k is the do-while count; the loops\' control keys (per instance of the partial unrolling and of the whole circuit) and the simulation records of the wrapped and partially unrolled circuit must equal the reference (fixed grid for every seed + generated nests); two theorems back this oracle: one pass of a loop over body ++ [probe] is the pass over the body followed by the probe carrying exactly the mapped repeat_until condition (C12_until_scoped_as_last_control), and a further key map renames every key name the loop condition reads (C12_until_names_under_key_map; composing over the names of the body only, as the implementation does, is refuted: F20). Classically controlled SUB-CIRCUITS (a ClassicallyControlledOperation whose sub-operation is a CircuitOperation that itself holds classically controlled gates; Circ/CtlSub.v models its three key transformations - conditions AND controlled operation -, its flat form = the unrolled sub-circuit with the conditions of the control on every operation, and its control keys): proved that the flat form commutes with rescoping / key maps / prefixing condition by condition (C12_ctl_flat_*), that a user-level control key looked up from inside a rescoped operation finds exactly the binding of the enclosing scope (C12_ctl_inner_key_binding), and that transforming control and controlled operation piecewise and then unrolling equals rescoping the flat form (C12_ctl_rescope_then_unroll; a rescoping that stops at the conditions of the control is refuted by a witness).  On every run: the model vs the implementation on controlled sub-circuits taken alone (rescoped / key-mapped / prefixed pair, flat form, control keys), each of them decomposed after a key map / after rescoping vs the flat form transformed condition by condition with the positional definitions, and nests in which controlled sub-circuits sit inside enclosing sub-circuits that measure the keys the inner conditions read and rescope them (repetition ids, parent paths, key maps, further levels, a same-named top-level key; fixed grid for every seed + generated nests) vs the reference nest in which every controlled sub-circuit is written out as its unrolled operations carrying the controls: reported measurement / control keys, cirq.decompose and mapped_circuit + decompose (trace equivalence up to the order of conditions), simulation records of the wrapped and the decomposed circuit, and one further key map / key-path prefix / rescoping applied to both nests.',
+    note='Trusted: Coq kernel; vf/checks/c12.py (building Cirq objects from case records, decoding Cirq objects back, printing Gallina literals, the Python oracles); vf/tables_c12.py. Leaves other than CircuitOperation are abstract (identifier, inversion flag, qubits, keys, conditions, one parameter) and are instantiated by six gate families, measurements and classically controlled gates; key equality is componentwise (path, name), equal to Cirq\'s string equality when no path component contains ":"; sympy conditions are restricted to five expression templates and modelled by simultaneous substitution (as the implementation does since the F13 fix); key-map / qubit-map collision checks of the with_* methods are not modelled (generated maps are injective); control keys and conditions of the unrolled circuit, parameter names and repeat_until are compared with the model but have no unrolling theorem; tagged CircuitOperations are covered by the simulation oracle only; classically controlled CircuitOperations are modelled as a pair (conditions, operation) outside the inductive type of operations, so inside a nest they are judged against the reference nest with the controlled sub-circuit written out (the unrolling of the bare sub-circuit is taken from the implementation, where it never meets a controlled sub-circuit, and the reference nest is an ordinary nest of the kind the struct stream compares with the model); C12_ctl_rescope_then_unroll is stated for bodies of gates (one level), positive repetition counts, user-level keys and no extern keys; a reference that reads a key nobody measures has no simulation outcome (counted, keys and unrolling still compared); with a zero-repetition operation in the nest the key sets are left to F7. the flat reference of nested repeat_until loops exists only when every instance of a loop needs the same number (<= 4) of passes (other cases are skipped and counted), and it trusts the scoping of a classical control placed at the end of the loop body (covered by the key theorems and the struct correspondence). known_findings/C12.json lists seven open signatures (F7, F14, F15, F16 x3, F18) and six fixed ones (F2 x2, F4, F13, F13b, F20).',
     technique='Rocq/Coq proof over an executable Gallina model + vm_compute correspondence against the implementation + differential simulation oracles (exact branch enumeration)',
 )
 
@@ -110,7 +110,11 @@ class Vocab:
         return cirq.CircuitOperation(**kw)
 
     def op(self, o):
-        return self.leaf(o) if o['t'] == 'leaf' else self.sub(o)
+        if o['t'] == 'leaf':
+            return self.leaf(o)
+        if o.get('cs'):      # a classically controlled sub-circuit: ClassicallyControlledOperation(CircuitOperation, conditions)
+            return self.sub(o).with_classical_controls(*[self.cond(c) for c in o['cs']])
+        return self.sub(o)
 
     # -- decode
     def dkey(self, k):
@@ -190,7 +194,10 @@ class Vocab:
                     until=None if op.repeat_until is None else self.dcond(op.repeat_until))
 
     def dop(self, op):
-        return self.dsub(op) if isinstance(op, self.cirq.CircuitOperation) else self.dleaf(op)
+        cirq = self.cirq
+        if isinstance(op, cirq.ClassicallyControlledOperation) and isinstance(op._sub_operation, cirq.CircuitOperation):
+            return dict(self.dsub(op._sub_operation), cs=[self.dcond(c) for c in op._conditions])
+        return self.dsub(op) if isinstance(op, cirq.CircuitOperation) else self.dleaf(op)
 
     def dcirc(self, c):
         return [[self.dop(o) for o in m.operations] for m in c.moments]
@@ -485,7 +492,8 @@ def s_names(o):
         return [k[1] for k in o['mk']] + [k[1] for c in o['cs'] for k in spec_keys_of(c)]
     km = dict(o['km'])
     unt = [k[1] for k in spec_keys_of(o['until'])] if o.get('until') is not None else []
-    return [km.get(n, n) for n in [n for m in o['c'] for x in m for n in s_names(x)] + unt]
+    return ([km.get(n, n) for n in [n for m in o['c'] for x in m for n in s_names(x)] + unt]
+            + [k[1] for c in o.get('cs', []) for k in spec_keys_of(c)])      # controls ON the sub-circuit: enclosing namespace
 
 
 def s_mnames(o):
@@ -516,8 +524,10 @@ def s_depth(o):
 class Gen:
     """Structured generator of nested CircuitOperation records (all keys written at user level: empty paths)."""
 
-    def __init__(self, rng, sim=False, classical=False, param_leaves=None, loops=0.0):
+    def __init__(self, rng, sim=False, classical=False, param_leaves=None, loops=0.0, ctl=0.0):
         self.rng = rng
+        self.ctl = ctl          # probability that a nested sub-circuit is measurement-free (but may hold classically controlled
+                                # gates) and is itself put under a classical control reading keys of the enclosing scopes
         self.loops = loops      # probability that a measuring sub-circuit becomes a repeat_until loop (at any nesting level)
         self.sim = sim          # simulation-friendly: every control key bound, no parameters left, no symbolic reps
         self.classical = classical      # only X / CNOT leaves: records are fully determined
@@ -526,10 +536,10 @@ class Gen:
     def leaf(self, free_q, measured, pure, outer_names):
         rng = self.rng
         r = rng.random()
-        if pure or r < 0.45:
+        if pure is True or r < 0.45:      # pure: True = no measurement and no control; 'nomeas' = no measurement (controls allowed)
             kind = 'p' if (rng.random() < 0.25 and self.param_leaves) else 'u'
         elif r < 0.72:
-            kind = 'm'
+            kind = 'c' if pure == 'nomeas' else 'm'
         else:
             kind = 'c'
         two = len(free_q) >= 2 and rng.random() < 0.3 and kind != 'm'
@@ -569,7 +579,11 @@ class Gen:
                     break
                 if depth > 0 and (rng.random() < 0.45 or (want_sub and mi >= 1)):
                     d2 = depth - 1 if (exact_depth and want_sub) else rng.randint(0, depth - 1)
-                    o = self.sub(d2, len(free), pure, list(measured) + list(outer_names), free, exact_depth)
+                    scope = list(measured) + list(outer_names)
+                    ctl = bool(self.ctl and scope and pure is not True and rng.random() < self.ctl)
+                    o = self.sub(d2, len(free), 'nomeas' if ctl else pure, scope, free, exact_depth)
+                    if ctl and o is not None and not s_mnames(o) and o['reps'] != 0:
+                        o['cs'] = [rcond(rng, lambda: ((), rng.choice(scope)), len(set(scope))) for _ in range(rng.choice([1, 1, 2]))]
                 else:
                     o = self.leaf(free, measured, pure, outer_names)
                 if o is None:
@@ -1011,6 +1025,16 @@ def _variants(o):
                 x = copy.deepcopy(o)
                 del x['c'][i][j]
                 yield x
+    if o.get('cs') and len(o['cs']) > 1:
+        for i in range(len(o['cs'])):
+            x = copy.deepcopy(o)
+            del x['cs'][i]
+            yield x
+    for c in o.get('cs', []):
+        if c[0] != 'key' or c[2] != -1:
+            x = copy.deepcopy(o)
+            x['cs'] = [('key', c[1] if c[0] != 'sym' else c[2][0], -1)]
+            yield x
     for k, v in (('qm', []), ('km', []), ('pm', []), ('pp', []), ('until', None)):
         if o[k]:
             x = copy.deepcopy(o)
@@ -2037,6 +2061,431 @@ def nested_until_stream(ctx, cirq, V, n):
 
 
 # ----------------------------------------------------------------------------------------------------------------
+# stream 9: classically controlled SUB-CIRCUITS (ClassicallyControlledOperation whose sub-operation is a CircuitOperation
+# that may itself hold classically controlled gates), alone and nested in enclosing sub-circuits that measure the keys
+# the inner conditions read and rescope them (repetition ids, parent paths, further levels), judged against a reference
+# without controlled sub-circuits.
+#   Reference: a controlled sub-circuit CCO(S, cs) can hold no measurement (the constructor refuses), so it acts like
+#   the operations of the unrolled S, each one carrying its own conditions AND cs, written directly into the enclosing
+#   body (Circ/CtlSub.v: ctl_flat; the theorems C12_ctl_* say how that flat form behaves under rescoping / key maps /
+#   prefixing and that the piecewise transformation of (cs, S) followed by unrolling gives the same).  inline_ctl does this
+#   bottom-up on the case record; the unrolling of S alone never meets a controlled sub-circuit, and the resulting nest
+#   is an ordinary one (leaves and CircuitOperations), which the other streams compare with the model.
+def has_ctl_sub(D):
+    return D['t'] == 'sub' and (bool(D.get('cs')) or any(has_ctl_sub(x) for m in D['c'] for x in m))
+
+
+def rec_has_zero(D):
+    return D['t'] == 'sub' and (D['reps'] == 0 or any(rec_has_zero(x) for m in D['c'] for x in m))
+
+
+def inline_ctl(V, D):
+    if D['t'] == 'leaf':
+        return D
+    body = []
+    for m in D['c']:
+        keep, tail = [], []
+        for x in m:
+            y = inline_ctl(V, x)
+            if y['t'] == 'sub' and y.get('cs'):
+                cs = list(y['cs'])
+                bare = {k: v for k, v in y.items() if k != 'cs'}
+                for fm in V.dcirc(V.sub(bare).mapped_circuit(deep=True)):
+                    tail.append([dict(l, cs=cs + list(l['cs'])) for l in fm])
+            else:
+                keep.append(y)
+        if keep:
+            body.append(keep)
+        body += tail
+    out = dict(D, c=body)
+    return out
+
+
+def canon_leaf(cirq, o):
+    """An operation up to the order of its classical controls."""
+    return (repr(o.without_classical_controls()), tuple(sorted(repr(c) for c in o.classical_controls)))
+
+
+def ctrace_sig(cirq, ops):
+    """trace_sig with operations compared up to the order of their conditions."""
+    sig = {}
+    for o in ops:
+        r = canon_leaf(cirq, o)
+        for q in o.qubits:
+            sig.setdefault(('q', repr(q)), []).append(r)
+        for k in cirq.measurement_key_objs(o):
+            sig.setdefault(('k', str(k)), []).append(('M', r))
+        for k in cirq.control_keys(o):
+            seq = sig.setdefault(('k', str(k)), [])
+            if seq and seq[-1][0] == 'C':
+                seq[-1] = ('C', tuple(sorted(seq[-1][1] + (r,))))
+            else:
+                seq.append(('C', (r,)))
+    return sig
+
+
+def is_flat_leaf(cirq, o):
+    return not isinstance(o.untagged, cirq.CircuitOperation) and not (
+        isinstance(o, cirq.ClassicallyControlledOperation) and isinstance(o._sub_operation.untagged, cirq.CircuitOperation))
+
+
+def flatten_all(cirq, tree):
+    """cirq.decompose down to gates, measurements and classically controlled gates (no sub-circuit left)."""
+    return list(cirq.decompose(tree, keep=lambda o: is_flat_leaf(cirq, o)))
+
+
+def ctl_summary(cirq, ops):
+    """The controlled operations of a flat sequence with the keys they read (for messages)."""
+    return [f'{o.without_classical_controls()} if {sorted(str(c) for c in o.classical_controls)}' for o in ops
+            if isinstance(o, cirq.ClassicallyControlledOperation)][:8]
+
+
+def ctl_nest_defect(cirq, V, prep, D, m2=None, path=(), bind=()):
+    """('' | 'skip' | kind, detail): the nest D (with controlled sub-circuits) vs its reference nest without them."""
+    R = inline_ctl(V, D)
+    op, ref = V.sub(D), V.sub(R)
+    fr = attempt(lambda: ref.mapped_circuit(deep=True))
+    if fr[0] != 'ok':
+        return 'skip', ''
+    flat = fr[1]
+    pre = [cirq.Moment(V.op(o) for o in m) for m in prep]
+    fin = cirq.Moment(cirq.measure(*[V.q(i) for i in range(4)], key='fin'))
+    wrapped = cirq.Circuit(pre + [cirq.Moment(op), fin])
+    flatc = cirq.Circuit(pre + list(flat.moments) + [fin])
+    # (a) keys the operation / the circuit reports
+    # (with a zero-repetition operation in the nest the unrolled form loses operations - and with them the controls of an
+    # enclosing controlled sub-circuit - that the wrapped form still reports: F7, judged by the struct stream)
+    for name, f in (('measurement_key_objs', cirq.measurement_key_objs), ('control_keys', cirq.control_keys))[:0 if rec_has_zero(D) else 2]:
+        for what, x, y in (('operation', op, flat), ('circuit', wrapped, flatc)):
+            g, w = attempt(lambda: kset(f(x))), attempt(lambda: kset(f(y)))
+            if g != w:
+                return f'{name}-of-{what}', f'{name} of the {what}: {g[1:]}, of the flat reference: {w[1:]}'
+    # (b) decomposition / unrolling down to gates
+    for name, f in (('decompose', lambda: flatten_all(cirq, op)),
+                    ('mapped_circuit-then-decompose', lambda: flatten_all(cirq, op.mapped_circuit(deep=True)))):
+        g = attempt(f)
+        if g[0] != 'ok':
+            return f'{name}:raises-{g[1]}', str(g[2:])[:300]
+        if ctrace_sig(cirq, g[1]) != ctrace_sig(cirq, flat.all_operations()):
+            return f'{name}-vs-flat-reference', (f'{name} gives controlled operations {ctl_summary(cirq, g[1])}, the flat reference '
+                                                 f'has {ctl_summary(cirq, flat.all_operations())}')
+    # (c) simulation (X / CNOT / measure / control: records are determined)
+    want = attempt(lambda: records_of(cirq, flatc))
+    # (a reference that reads a key nobody measures - a key map onto an unmeasured name - has no outcome to compare with)
+    for name, c in (('wrapped', lambda: wrapped), ('decomposed', lambda: cirq.Circuit(pre + [flatten_all(cirq, op), fin])))[:2 if want[0] == 'ok' else 0]:
+        g = attempt(lambda: records_of(cirq, c()))
+        if g[:2] != want[:2]:
+            return f'simulation-{name}', f'{name} circuit: {g[1:]}, flat reference: {want[1:]}'
+    # (d) one further remapping of each kind, applied to the nest and to its reference nest
+    B = frozenset(V.key(b) for b in bind)
+    for name, t in (('key-map', lambda o: cirq.with_measurement_key_mapping(o, dict(m2 or {}))),
+                    ('key-path-prefix', lambda o: cirq.with_key_path_prefix(o, tuple(path))),
+                    ('rescope', lambda o: cirq.with_rescoped_keys(o, tuple(path), B))):
+        g, w = attempt(lambda: flatten_all(cirq, t(op))), attempt(lambda: list(t(ref).mapped_circuit(deep=True).all_operations()))
+        if g[0] != 'ok' or w[0] != 'ok':
+            if g[:2] != w[:2]:
+                return f'{name}:raises', f'{name} of the nest: {g[1:]}, of its reference nest: {w[1:]}'
+            continue
+        if ctrace_sig(cirq, g[1]) != ctrace_sig(cirq, w[1]):
+            return f'{name}-then-unroll', (f'after {name} (map={m2} path={list(path)} bindable={list(bind)}) the nest unrolls to controlled '
+                                           f'operations {ctl_summary(cirq, g[1])}, its reference nest to {ctl_summary(cirq, w[1])}')
+    return '', ''
+
+
+def spec_leaf_images(l, p, m, bind):
+    """[key-mapped, rescoped] images of a leaf record by the positional definitions (spec_cond_images)."""
+    outs = []
+    for which in (0, 2):
+        outs.append(dict(l, mk=[(tuple(k[0]), dict(m).get(k[1], k[1])) if which == 0 else (tuple(p) + tuple(k[0]), k[1]) for k in l['mk']],
+                         cs=[spec_cond_images(norm_cond(c), p, m, bind)[which] for c in l['cs']]))
+    return outs
+
+
+def ctl_top_defect(cirq, V, I, cs, m, path, bind):
+    """A controlled sub-circuit X = CCO(S, cs) taken alone: X decomposed, and X after a key map / after rescoping and then
+    decomposed, against the flat form (the unrolled S with cs on every operation) transformed condition by condition with
+    the positional definitions."""
+    IR = inline_ctl(V, I)
+    fr = attempt(lambda: V.dcirc(V.sub(IR).mapped_circuit(deep=True)))
+    if fr[0] != 'ok':
+        return 'skip', ''
+    leaves = [dict(l, cs=list(cs) + list(l['cs'])) for mo in fr[1] for l in mo]
+    X = V.sub(I).with_classical_controls(*[V.cond(c) for c in cs])
+    B = frozenset(V.key(b) for b in bind)
+    want_ck = sorted({norm_key(k) for l in leaves for c in l['cs'] for k in spec_keys_of(c)})
+    got_ck = attempt(lambda: mkeyset(cirq.control_keys(X)))
+    if got_ck != ('ok', want_ck) and not rec_has_zero(I):
+        return 'control_keys', f'control keys {got_ck[1:]}, flat form reads {want_ck}'
+    cases = [('decompose', lambda: X, leaves),
+             ('key-map', lambda: cirq.with_measurement_key_mapping(X, dict(m)), [spec_leaf_images(l, path, m, bind)[0] for l in leaves]),
+             ('rescope', lambda: cirq.with_rescoped_keys(X, tuple(path), B), [spec_leaf_images(l, path, m, bind)[1] for l in leaves])]
+    for name, f, want in cases:
+        g = attempt(lambda: flatten_all(cirq, f()))
+        if g[0] != 'ok':
+            return f'{name}:raises-{g[1]}', str(g[2:])[:300]
+        w = [V.leaf(l) for l in want]
+        if ctrace_sig(cirq, g[1]) != ctrace_sig(cirq, w):
+            return f'{name}-vs-flat-form', (f'{name} (map={m} path={list(path)} bindable={list(bind)}) then decompose gives '
+                                            f'{ctl_summary(cirq, g[1])}, the flat form transformed condition by condition {ctl_summary(cirq, w)}')
+        if name != 'decompose':
+            gk, wk = attempt(lambda: mkeyset(cirq.control_keys(f()))), sorted({norm_key(k) for l in want for c in l['cs'] for k in spec_keys_of(c)})
+            if gk != ('ok', wk) and not rec_has_zero(I):
+                return f'{name}:control_keys', f'after {name} (map={m} path={list(path)} bindable={list(bind)}) control keys {gk[1:]}, flat form reads {wk}'
+    return '', ''
+
+
+def ctl_grid():
+    """Fixed cases (every seed): a sub-circuit holding gates controlled by `m`, itself under a classical control on `c`
+    (measured outside), inside an enclosing sub-circuit that measures `m` first and rescopes keys; with / without an
+    unrelated top-level measurement `m`."""
+    X = lambda q, cs=(): dict(t='leaf', uid=5, sgn=False, qs=[q], mk=[], cs=list(cs), ps=[])
+    CX = lambda a, b, cs=(): dict(t='leaf', uid=6, sgn=False, qs=[a, b], mk=[], cs=list(cs), ps=[])
+    M = lambda q, n: dict(t='leaf', uid=Vocab.MEAS, sgn=False, qs=[q], mk=[((), n)], cs=[], ps=[])
+    S = lambda c, **kw: dict(dict(t='sub', c=c, reps=1, ids=None, use=False, qm=[], km=[], pm=[], pp=[], ext=[], until=None), **kw)
+    K = lambda n: ('key', ((), n), -1)
+    encl = [dict(reps=2, use=True), dict(reps=2, use=True, ids=['x', 'y']), dict(pp=['p']), dict(reps=2, use=True, pp=['p']),
+            dict(reps=2), dict(), dict(km=[('m', 'd')]), dict(reps=2, use=True, km=[('m', 'd')])]
+    wraps = [None, dict(pp=['w']), dict(reps=2, use=True, ids=['u', 'v'])]
+    inner_opts = [dict(), dict(pp=['s']), dict(reps=2), dict(km=[('b', 'm')], _read='b'), dict(qm=[(1, 3)])]
+    outer_cs = [[K('c')], [('sym', 2, [((), 'c'), ((), 'm')])], [K('m')], [('mask', ((), 'c'), -1, 1, True, 1), K('m')]]
+    cases = []
+    for ei, e in enumerate(encl):
+        for wi, w in enumerate(wraps):
+            for ii, io in enumerate(inner_opts):
+                for oi, ocs in enumerate(outer_cs):
+                    for top in (None, 0):
+                        for mval in (1, 0)[:2 if (ei + wi + ii + oi) % 2 == 0 else 1]:
+                            for deep in (False, True)[:2 if (ei + ii) % 3 == 0 else 1]:
+                                io2 = dict(io)
+                                rd = io2.pop('_read', 'm')      # the name the inner gate uses (mapped onto m by the inner key map)
+                                tgt = X(1, [K(rd)])
+                                if deep:        # the controlled gate one level further down
+                                    tgt = S([[tgt]])
+                                inner = S([[tgt]], cs=ocs, **io2)
+                                body = ([[X(0)]] if mval else []) + [[M(0, 'm')], [inner], [M(1 if not io.get('qm') else 3, 'out')]]
+                                nest = S(body, **e)
+                                if w is not None:
+                                    nest = S([[nest]], **w)
+                                prep = [[X(2)], [M(2, 'c')]]
+                                if top is not None:
+                                    prep = prep + [[M(3 if not io.get('qm') else 1, 'm')]]
+                                cases.append((dict(encl=ei, wrap=wi, inner=ii, ctl=oi, top=top, m=mval, deep=deep), prep, nest))
+    return cases
+
+
+def ctl_top_grid():
+    X = lambda q, cs=(): dict(t='leaf', uid=5, sgn=False, qs=[q], mk=[], cs=list(cs), ps=[])
+    S = lambda c, **kw: dict(dict(t='sub', c=c, reps=1, ids=None, use=False, qm=[], km=[], pm=[], pp=[], ext=[], until=None), **kw)
+    K = lambda n: ('key', ((), n), -1)
+    cases = []
+    for io in (dict(), dict(pp=['s']), dict(reps=2), dict(km=[('b', 'm')]), dict(reps=2, use=True)):
+        for deep in (False, True):
+            for cs in ([K('c')], [('sym', 2, [((), 'c'), ((), 'm')])], [K('m')]):
+                for path, bind in ((['0'], [(('0',), 'm')]), (['0'], [(('0',), 'm'), ((), 'm'), ((), 'c')]), (['p', '1'], [(('p',), 'm'), ((), 'c')]),
+                                   (['x', '0'], [(('x', '0'), 'm'), (('x',), 'c')]), ([], [((), 'm')]), (['0'], [])):
+                    for m in ([('m', 'z')], [('c', 'm'), ('m', 'c')], [('b', 'y')]):
+                        tgt = X(1, [K('b' if io.get('km') else 'm')])
+                        if deep:
+                            tgt = S([[tgt]])
+                        cases.append((S([[X(0)], [tgt]], **io), cs, m, path, bind))
+    return cases
+
+
+def report_ctl(ctx, cirq, V, prep, D, kind, detail, extra, desc=None):
+    sig = 'ctl-sub:' + kind
+    fails = lambda x: has_ctl_sub(x) and ctl_nest_defect(cirq, V, prep, x, **extra)[0] == kind
+    small = D if seen(ctx, sig) else shrink(D, fails, budget=80)
+    kd, detail2 = ctl_nest_defect(cirq, V, prep, small, **extra) if small is not D else (kind, detail)
+    ctx.violation(sig, (f'classically controlled sub-circuit inside sub-circuits vs the reference nest in which it is written out as its '
+                        f'unrolled operations carrying the controls: {kind}: {detail2 or detail}'[:1100]
+                        + f'; minimised operation {V.sub(small)!r}'[:1500] + f' after prep {prep}' + (f' [grid case {desc}]' if desc else '')),
+                  dict(kind='ctl-nest', prep=prep, rec=small, defect=kind, **extra))
+
+
+def ctl_stream(ctx, cirq, V, n):
+    rng = ctx.rng
+    quick = ctx.tier == 'quick'
+    grid = ctl_grid()
+    fixed = [g for i, g in enumerate(grid) if i % 11 == 0] if quick else grid
+    rest = [g for i, g in enumerate(grid) if i % 11 != 0] if quick else []
+    extra_cases = rng.sample(rest, min(len(rest), 30)) if rest else []
+    for desc, prep, nest in fixed + extra_cases:
+        if over_time(ctx):
+            break
+        built = attempt(lambda: V.sub(nest))
+        if built[0] != 'ok':
+            ctx.violation('ctl-sub:rejected', f'grid case {desc} is rejected by the constructor: {built[1:]}',
+                          dict(kind='ctl-nest', prep=prep, rec=nest, defect='rejected'))
+            continue
+        D = V.dsub(built[1])
+        extra = dict(m2=[('m', 'z'), ('c', 'y')], path=['q'], bind=[((), 'c'), (('q',), 'm')])
+        kind, detail = ctl_nest_defect(cirq, V, prep, D, **extra)
+        if kind == 'skip':
+            ctx.streams['ctl-sub:grid-skipped'] += 1
+            continue
+        ctx.count('sim:ctl-sub:grid', (prep, D), True, sample=dict(case=desc, op=repr(built[1])[:500]))
+        if kind:
+            report_ctl(ctx, cirq, V, prep, D, kind, detail, extra, desc)
+    # the controlled sub-circuit alone: decompose, key map, rescoping vs the flat form
+    tops = ctl_top_grid()
+    tfixed = [g for i, g in enumerate(tops) if i % 5 == 0] if quick else tops
+    trest = [g for i, g in enumerate(tops) if i % 5 != 0] if quick else []
+    rows = []
+    for I, cs, m, path, bind in tfixed + (rng.sample(trest, min(len(trest), 30)) if trest else []):
+        if over_time(ctx):
+            break
+        ctl_top_case(ctx, cirq, V, I, cs, m, path, bind, rows)
+    # generated nests
+    gen = Gen(rng, sim=True, classical=True, ctl=0.7)
+    done = tries = 0
+    while done < n and tries < 60 * n and not over_time(ctx):
+        tries += 1
+        prep, names, rec = sim_case(rng, gen)
+        if rec is None or not has_ctl_sub(rec):
+            continue
+        built = attempt(lambda: V.sub(rec))
+        if built[0] != 'ok':
+            continue
+        D = V.dsub(built[1])
+        if not has_ctl_sub(D):
+            continue
+        onames = sorted(set(s_names(D)))
+        m2 = sorted((a, b) for a, b in zip(onames, rng.sample(NAMES + ['y', 'z', 'k'], len(onames))) if rng.random() < 0.7)
+        if len({dict(m2).get(x, x) for x in onames}) != len(onames):
+            m2 = []
+        path = list(rpath(rng, 2))
+        bind = [rkey(rng, 2) for _ in range(rng.randint(0, 2))] + [(tuple(path[:rng.randint(0, len(path))]), x) for x in onames if rng.random() < 0.6]
+        extra = dict(m2=m2, path=path, bind=bind)
+        kind, detail = ctl_nest_defect(cirq, V, prep, D, **extra)
+        if kind == 'skip':
+            continue
+        done += 1
+        ctx.count(f'sim:ctl-sub:depth{s_depth(D) - 1}', (prep, D), True, sample=dict(op=repr(built[1])[:500]))
+        if kind and f13_explains_ctl(ctx, cirq, V, D, m2):
+            continue
+        if kind:
+            report_ctl(ctx, cirq, V, prep, D, kind, detail, extra)
+        # its controlled sub-circuits, each taken alone (in the namespace it is written in)
+        for I in ctl_subs_of(D)[:2]:
+            inames = sorted(set(s_names(I)))
+            p2 = list(rpath(rng, 2))
+            b2 = [(tuple(p2[:rng.randint(0, len(p2))]), x) for x in inames if rng.random() < 0.7]
+            mm = sorted((a, b) for a, b in zip(inames, rng.sample(NAMES + ['y', 'z', 'k'], len(inames))) if rng.random() < 0.7)
+            if len({dict(mm).get(x, x) for x in inames}) != len(inames):
+                mm = []
+            ctl_top_case(ctx, cirq, V, {k: v for k, v in I.items() if k != 'cs'}, I['cs'], mm, p2, b2, rows)
+    ctl_model_rows(ctx, cirq, V, rows)
+
+
+CTL_HEADER = 'From VF Require Import Circ.CtlSub.\n'
+CTL_DEFS = """
+Definition ctl_eqb (x y : ctlop) : bool := list_eqb' cond_eqb (fst x) (fst y) && op_eqb (snd x) (snd y).
+Definition crow_t := ((list cond * op * kmap * list string * list mkey)
+                      * (res ctlop * res ctlop * res ctlop * res (list leaf) * res (list mkey)))%type.
+Definition c_x (r : crow_t) : ctlop := match r with ((cs, o, _, _, _), _) => (cs, o) end.
+Definition c_m (r : crow_t) := match r with ((_, _, m, _, _), _) => m end.
+Definition c_p (r : crow_t) := match r with ((_, _, _, p, _), _) => p end.
+Definition c_b (r : crow_t) := match r with ((_, _, _, _, b), _) => b end.
+Definition c_o1 (r : crow_t) := match r with (_, (a, _, _, _, _)) => a end.
+Definition c_o2 (r : crow_t) := match r with (_, (_, a, _, _, _)) => a end.
+Definition c_o3 (r : crow_t) := match r with (_, (_, _, a, _, _)) => a end.
+Definition c_o4 (r : crow_t) := match r with (_, (_, _, _, a, _)) => a end.
+Definition c_o5 (r : crow_t) := match r with (_, (_, _, _, _, a)) => a end.
+"""
+CTL_PREDS = [
+    ('rescope', 'fun r : crow_t => res_eqb ctl_eqb (Ok (ctl_rescope kK kM (c_p r) (c_b r) (c_x r))) (c_o1 r)'),
+    ('key_map', 'fun r : crow_t => res_eqb ctl_eqb (Ok (ctl_kmap kK kM (c_m r) (c_x r))) (c_o2 r)'),
+    ('prefix', 'fun r : crow_t => res_eqb ctl_eqb (Ok (ctl_prefix kK kM (c_p r) (c_x r))) (c_o3 r)'),
+    ('flat', 'fun r : crow_t => res_eqb leaves_same (do ms <- ctl_flat kK kM 8 (c_x r); Ok (circ_leaves ms)) (c_o4 r)'),
+    ('ckeys', 'fun r : crow_t => res_eqb keyset_eqb (ctl_ckeys kK kM 8 (c_x r)) (c_o5 r)'),
+]
+
+
+def gLeaf(o):
+    return (f'(Leaf {Z(o["uid"])} {gB(o["sgn"])} {gL(o["qs"], Z)} {gL(o["mk"], gK)} {gL(o["cs"], gC)} {gL(o["ps"], gP)})')
+
+
+def ctl_observe(cirq, V, I, cs, m, path, bind):
+    """What the implementation does with the controlled sub-circuit X = ClassicallyControlledOperation(S, cs)."""
+    X = V.sub(I).with_classical_controls(*[V.cond(c) for c in cs])
+    B = frozenset(V.key(b) for b in bind)
+
+    def pair(y):
+        if not (isinstance(y, cirq.ClassicallyControlledOperation) and isinstance(y._sub_operation, cirq.CircuitOperation)):
+            raise TypeError(f'not a controlled sub-circuit: {y!r}'[:200])
+        return [V.dcond(c) for c in y._conditions], V.dsub(y._sub_operation)
+    return [attempt(lambda: pair(cirq.with_rescoped_keys(X, tuple(path), B))),
+            attempt(lambda: pair(cirq.with_measurement_key_mapping(X, dict(m)))),
+            attempt(lambda: pair(cirq.with_key_path_prefix(X, tuple(path)))),
+            attempt(lambda: [V.dleaf(o) for o in flatten_all(cirq, X)]),
+            attempt(lambda: mkeyset(cirq.control_keys(X)))]
+
+
+def ctl_model_rows(ctx, cirq, V, rows):
+    """The model of Circ/CtlSub.v against the implementation on the controlled sub-circuits taken alone: the piecewise
+    transformations (conditions and controlled operation), the flat form and the control keys."""
+    rows = [r for r in rows if not has_ctl_sub(r[0])][:150 if ctx.tier == 'quick' else 1500]
+    gpair = lambda x: f'({gL(x[0], gC)}, {gOp(x[1])})'
+    obs, lines = [], []
+    for I, cs, m, path, bind in rows:
+        o = ctl_observe(cirq, V, I, cs, m, path, bind)
+        obs.append(o)
+        lines.append(f'(({gL(cs, gC)}, {gOp(I)}, {gL(m, lambda x: f"({gS(x[0])}, {gS(x[1])})")}, {gL(path, gS)}, {gL(bind, gK)}), '
+                     f'({gRes(o[0], gpair)}, {gRes(o[1], gpair)}, {gRes(o[2], gpair)}, {gRes(o[3], lambda l: gL(l, gLeaf))}, '
+                     f'{gRes(o[4], lambda l: gL(l, gK))}))')
+        ctx.count('ctl-sub:model', (I, cs, m, path, bind), True)
+    CH = 75
+    for ci in range(0, len(lines), CH):
+        defs = CTL_HEADER + CTL_DEFS + 'Definition rows_0 : list crow_t := [\n' + ';\n'.join(lines[ci:ci + CH]) + '].\n'
+        for j in range(1, len(CTL_PREDS)):
+            defs += f'Definition rows_{j} := rows_0.\n'
+        bad = run_coq(ctx, f'ctl{ci // CH}', defs, [(name, None, pred) for name, pred in CTL_PREDS])
+        for (name, _), k in zip(CTL_PREDS, range(len(CTL_PREDS))):
+            for idx in bad[name]:
+                I, cs, m, path, bind = rows[ci + idx]
+                got = obs[ci + idx][k]
+                ctx.mark_broken(f'correspondence:ctl:{name}', f'case {ci + idx}: controls {cs} on {I}, map={m} path={path} bindable={bind} '
+                                f'-> implementation {got}')
+                ctx.violation(f'correspondence:ctl:{name}',
+                              (f'model (Circ/CtlSub.v) and implementation disagree on `{name}` of the controlled sub-circuit '
+                               f'{V.sub(I)!r}'[:1200] + f' with controls {cs}, map={m} path={path} bindable={bind}; implementation: {got}'[:700]),
+                              dict(kind='ctl-top', rec=I, cs=cs, m=m, path=path, bind=bind, defect='model:' + name), found_input=False)
+
+
+def ctl_subs_of(D):
+    if D['t'] == 'leaf':
+        return []
+    return ([D] if D.get('cs') else []) + [y for m in D['c'] for x in m for y in ctl_subs_of(x)]
+
+
+def f13_explains_ctl(ctx, cirq, V, D, m2):
+    return sym_collision(inline_ctl(V, D), [dict(m2)] if m2 else []) and confirm_f13(ctx, cirq, V)
+
+
+def ctl_top_case(ctx, cirq, V, I, cs, m, path, bind, rows):
+    built = attempt(lambda: V.sub(I))
+    if built[0] != 'ok':
+        return
+    I = V.dsub(built[1])        # the record as the constructor normalises it (default repetition ids ...)
+    kind, detail = ctl_top_defect(cirq, V, I, cs, m, path, bind)
+    if kind == 'skip':
+        return
+    ctx.count('ctl-sub:alone', (I, cs, m, path, bind), True, sample=dict(sub=repr(V.sub(I))[:300], controls=cs, key_map=m, path=path, bindable=bind))
+    rows.append((I, cs, m, path, bind))
+    if kind:
+        holder = dict(t='sub', c=[[inline_ctl(V, I)], [dict(t='leaf', uid=5, sgn=False, qs=[9], mk=[], cs=list(cs), ps=[])]], km=[])
+        if sym_collision(holder, [dict(m)]) and confirm_f13(ctx, cirq, V):
+            return
+        sig = 'ctl-sub-alone:' + kind
+        fails = lambda x: ctl_top_defect(cirq, V, x, cs, m, path, bind)[0] == kind
+        small = I if seen(ctx, sig) else shrink(I, fails, budget=60)
+        kd, d2 = ctl_top_defect(cirq, V, small, cs, m, path, bind) if small is not I else (kind, detail)
+        ctx.violation(sig, (f'classically controlled sub-circuit vs its flat form (the unrolled sub-circuit with the controls on every '
+                            f'operation): {kind}: {d2 or detail}'[:1100] + f'; sub-circuit {V.sub(small)!r}'[:1200] + f' controls {cs}'),
+                      dict(kind='ctl-top', rec=small, cs=cs, m=m, path=path, bind=bind, defect=kind))
+
+
+# ----------------------------------------------------------------------------------------------------------------
 def run(ctx):
     cirq = env.import_cirq()
     V = Vocab(cirq)
@@ -2052,7 +2501,12 @@ def run(ctx):
                 'at any level, condition over an own key and (70%) a key of the enclosing scopes; until_nested: fixed grid (6 conditions '
                 'x 6 enclosing rescopings x 3 outer wrappers x top-level same-named key absent/0/1 x 3 value patterns; quick tier: every '
                 '7th case + 60 seed-dependent ones) and generated X/CNOT nests with <= 2 loops, each judged against the loop-free flat '
-                'reference.  non-trivial = nesting depth >= 2 or any map / ids / path / repetitions != 1 (struct), >= 2 records (sim), '
+                'reference; ctl_sub: fixed grid (8 enclosing rescopings x 3 outer wrappers x 5 inner sub-circuit options x 4 control '
+                'conditions x top-level same-named key absent/present x measured value x the controlled gate one level further down; '
+                'quick tier: every 11th case + 30 seed-dependent ones), fixed grid of controlled sub-circuits taken alone (5 options x 2 '
+                'depths x 3 controls x 6 (path, bindable) x 3 key maps; quick: every 5th + 30) and generated X/CNOT nests in which a nested '
+                'sub-circuit is measurement-free and under a classical control with p=0.7, each with a random further key map / path / '
+                'bindable set; up to 150 (1500) of the controlled sub-circuits taken alone go through the Coq model.  non-trivial = nesting depth >= 2 or any map / ids / path / repetitions != 1 (struct), >= 2 records (sim), '
                 '>= 2 branches (distribution); distinct by canonical record')
     ctx.assumptions += ['vf/checks/c12.py: construction of Cirq objects from case records and decoding back',
                         'key equality modelled componentwise (no ":" inside path components)',
@@ -2069,7 +2523,7 @@ def run(ctx):
     for name, f, nq, nt in (('keys', key_stream, 300, 3000), ('struct', struct_stream, 240, 2400), ('unitary', unitary_stream, 100, 1500),
                             ('sim', sim_stream, 120, 1500), ('until', until_stream, 40, 400), ('scoping', scope_stream, 60, 600),
                             ('distribution', dist_stream, 60, 600), ('struct_loops', struct_loops_stream, 60, 900),
-                            ('until_nested', nested_until_stream, 50, 800)):
+                            ('until_nested', nested_until_stream, 50, 800), ('ctl_sub', ctl_stream, 60, 900)):
         t = time.time()
         f(ctx, cirq, V, nq if quick else nt)
         timing[name + '_s'] = round(time.time() - t, 1)
@@ -2103,6 +2557,8 @@ def norm_rec(o):
         o['reps'] = tuple(o['reps'])
     if o['until'] is not None:
         o['until'] = norm_c(o['until'])
+    if o.get('cs'):
+        o['cs'] = [norm_c(c) for c in o['cs']]
     return o
 
 
@@ -2160,6 +2616,18 @@ def replay(ctx, data):
         prep = [[norm_rec(o) for o in m] for m in data['prep']]
         d, detail = nested_until_defect(cirq, V, prep, D)
         print('repeat_until loops vs flat reference:', (d + ': ' + detail) if d else 'agree')
+        return d in ('', 'skip')
+    if k == 'ctl-nest':
+        prep = [[norm_rec(o) for o in m] for m in data['prep']]
+        extra = dict(m2=[tuple(x) for x in data.get('m2') or []], path=list(data.get('path') or []),
+                     bind=[norm_key(b) for b in data.get('bind') or []])
+        d, detail = ctl_nest_defect(cirq, V, prep, D, **extra)
+        print('controlled sub-circuits vs the reference nest:', (d + ': ' + detail) if d else 'agree')
+        return d in ('', 'skip')
+    if k == 'ctl-top':
+        d, detail = ctl_top_defect(cirq, V, D, [norm_c(c) for c in data['cs']], [tuple(x) for x in data['m']], list(data['path']),
+                                   [norm_key(b) for b in data['bind']])
+        print('controlled sub-circuit vs its flat form:', (d + ': ' + detail) if d else 'agree')
         return d in ('', 'skip')
     if k in ('sim', 'until'):
         prep = [[norm_rec(o) for o in m] for m in data['prep']]
